@@ -8,6 +8,7 @@ import (
 	"go/constant"
 	"go/token"
 	"go/types"
+	"sort"
 	"strings"
 
 	"golang.org/x/tools/go/cfg"
@@ -2494,4 +2495,104 @@ func c15R11(c *Ctx, r *Report) {
 		}
 	}
 	r.Floor(rule, n, 3, "module-name encoders applied to an import path")
+}
+
+// ---- C03.R16: nominal identity includes the declaring module ------------------------------------------------
+
+func init() {
+	lateInits = append(lateInits, func() {
+		props["C03"].Quick = append(props["C03"].Quick, c03R16)
+		props["C12"].Quick = append(props["C12"].Quick, c03R16)
+		props["C18"].Quick = append(props["C18"].Quick, c03R16)
+		props["C03"].Explanation += " (R16) two named types are equal only if they are the same declaration: NamedType.Equals compares the declaring module (or the identity) besides the name, and every NamedType the compiler creates outside package types is given its module before it is published."
+	})
+}
+
+func c03R16(c *Ctx, r *Report) {
+	const rule = "C03.R16"
+	r.Describe(rule, "types.(*NamedType).Equals: the accepting return compares, besides .Name, a second field of the two NamedTypes (or their identity); every types.NewNamed(...) result outside package types has that field assigned in the creating function")
+	eq := c.LookupFn("internal/types", "(*NamedType).Equals")
+	nn := c.LookupFn("internal/types", "NewNamed")
+	if !r.Anchor(rule, eq != nil && nn != nil, "types.(*NamedType).Equals / types.NewNamed") {
+		return
+	}
+	info := eq.Info()
+	// fields compared between the receiver and the other value in a `return a.F == b.F && …`
+	fields := map[string]bool{}
+	identity := false
+	ast.Inspect(eq.Decl.Body, func(x ast.Node) bool {
+		ret, ok := x.(*ast.ReturnStmt)
+		if !ok || len(ret.Results) != 1 {
+			return true
+		}
+		for _, cj := range conjuncts(ret.Results[0]) {
+			be, ok := isBinOp(cj, token.EQL)
+			if !ok {
+				continue
+			}
+			l, lok := ast.Unparen(be.X).(*ast.SelectorExpr)
+			rr, rok := ast.Unparen(be.Y).(*ast.SelectorExpr)
+			if lok && rok && l.Sel.Name == rr.Sel.Name && exprStr(l.X) != exprStr(rr.X) {
+				fields[l.Sel.Name] = true
+			}
+			if !lok && !rok {
+				if _, isPtr := info.TypeOf(be.X).Underlying().(*types.Pointer); isPtr {
+					identity = true
+				}
+			}
+		}
+		return true
+	})
+	var extra []string
+	for f := range fields {
+		if f != "Name" {
+			extra = append(extra, f)
+		}
+	}
+	sort.Strings(extra)
+	r.Check(identity || len(extra) > 0, rule, eq.Name(), "named types are equal only as the same declaration", c.pos(eq.Decl.Pos()),
+		"two named types are equal as soon as their names are: a value of ma::P (4 bytes) is accepted where mb::P (16 bytes) is expected — `let q: mb::P = p;` and `mb::Show(p)` type-check, and the callee reads fields the value does not have")
+	if identity || len(extra) == 0 {
+		return
+	}
+	n := 0
+	for _, p := range c.Pkgs {
+		rel := relOf(p.PkgPath)
+		if rel == "internal/types" {
+			continue
+		}
+		for _, fn := range c.AllFns(rel) {
+			finfo := fn.Info()
+			for _, cl := range callsIn(fn.Decl.Body, true) {
+				if !isCallTo(finfo, cl, nn.Obj) {
+					continue
+				}
+				n++
+				// the variable the result is bound to, and an assignment v.<extra> = … in the same function
+				var v types.Object
+				ast.Inspect(fn.Decl.Body, func(x ast.Node) bool {
+					if as, ok := x.(*ast.AssignStmt); ok && len(as.Lhs) == 1 && len(as.Rhs) == 1 && as.Rhs[0] == ast.Expr(cl) {
+						v = objOf(finfo, as.Lhs[0])
+					}
+					return true
+				})
+				set := false
+				if v != nil {
+					ast.Inspect(fn.Decl.Body, func(x ast.Node) bool {
+						if as, ok := x.(*ast.AssignStmt); ok {
+							for _, l := range as.Lhs {
+								if sel, ok := ast.Unparen(l).(*ast.SelectorExpr); ok && objOf(finfo, sel.X) == v && sel.Sel.Name == extra[0] {
+									set = true
+								}
+							}
+						}
+						return true
+					})
+				}
+				r.Check(set, rule, fn.Name(), "new named type records its "+extra[0], c.pos(cl.Pos()),
+					"a NamedType is created and published without the field that tells declarations of the same name apart: it compares equal to the type of that name in every module that leaves the field empty as well")
+			}
+		}
+	}
+	r.Floor(rule, n, 1, "NewNamed call sites outside package types")
 }
